@@ -1,8 +1,8 @@
 CONSTANTS Formats = {0, 4, 8, 12} SpaLens = {2, 6} StartCi = {0, 254} PayCi = {0, 9, 255} ForeignLens = {2, 3} Bursts = {2, 16, 240, 255} MaxPk = 5
-  Modes = {"cont"} ContFull = FALSE
+  Modes = {"cont", "mix"} ContFull = FALSE
   Listen <- ListenM
   Pays <- SpecialPays
 SPECIFICATION Spec
 INVARIANTS TypeOK
-PROPERTIES FlagOnlyAfterLoss FlagAfterLoss NothingForeign DeliveredIff DepPassed
+PROPERTIES FlagOnlyAfterLoss FlagAfterLoss NothingForeign DeliveredIff DepPassed MixNeutral
 CHECK_DEADLOCK FALSE
